@@ -224,6 +224,7 @@ class Facts:
         self.const_items = []
         self.spans = {}
         self.crates = []
+        self.adts = {}      # path -> [variants: {"name", "fields"}]
         for c in CRATES:
             p = os.path.join(directory, c + ".json")
             if not os.path.exists(p):
@@ -232,6 +233,8 @@ class Facts:
                 d = json.load(fh)
             self.crates.append(c)
             self.spans[c] = d["spans"]
+            for a in d.get("adts", []):
+                self.adts[a["path"]] = a["variants"]
             for raw in d["fns"]:
                 f = Fn(raw, c, self)
                 self.fns[f.dp] = f
@@ -732,3 +735,213 @@ def fmt_place(fn, pl):
         else:
             s += "[%s]" % (e,)
     return s
+
+
+# ----------------------------------------------------------------------------------------
+# Expression reconstruction and path conditions
+# ----------------------------------------------------------------------------------------
+
+def place_expr(fn, pl, depth=0):
+    l, proj = pl
+    base = local_expr(fn, l, depth)
+    if not proj:
+        return base
+    return ("proj", base, tuple(_hashable(p) for p in proj))
+
+
+def _hashable(x):
+    if isinstance(x, list):
+        return tuple(_hashable(y) for y in x)
+    return x
+
+
+def local_expr(fn, l, depth=0):
+    """Symbolic expression for a local: parameters and multiply-assigned locals stay opaque."""
+    if l <= fn.argc and l != 0:
+        return ("arg", l, fn.names.get(l, "_%d" % l))
+    if depth > 14:
+        return ("var", l)
+    ds = fn.defs().get(l, [])
+    if len(ds) != 1 or ds[0][3]:
+        return ("var", l, fn.names.get(l, "_%d" % l))
+    _bb, _j, rv, _ = ds[0]
+    return rvalue_expr(fn, rv, depth + 1, l)
+
+
+def rvalue_expr(fn, rv, depth, l=None):
+    k = rv[0]
+    if k == "use":
+        return op_expr(fn, rv[1], depth)
+    if k == "cast":
+        if rv[1] in ("IntToInt", "Transmute") or rv[1].startswith("PointerCoercion") or rv[1] == "PtrToPtr":
+            return ("cast", op_expr(fn, rv[2], depth), rv[3])
+        return ("cast", op_expr(fn, rv[2], depth), rv[3])
+    if k == "bin":
+        op = rv[1].replace("WithOverflow", "").replace("Unchecked", "")
+        return ("bin", op, op_expr(fn, rv[2], depth), op_expr(fn, rv[3], depth))
+    if k == "un":
+        return ("un", rv[1], op_expr(fn, rv[2], depth))
+    if k == "ref":
+        return ("ref", place_expr(fn, rv[2], depth))
+    if k == "rawptr":
+        return ("ref", place_expr(fn, rv[2], depth))
+    if k == "discr":
+        return ("discr", place_expr(fn, rv[1], depth))
+    if k == "call":
+        return ("call", callee_name(rv[1]), tuple(op_expr(fn, a, depth) for a in rv[2]), l)
+    if k == "agg":
+        return ("agg", _hashable(rv[1]), tuple(op_expr(fn, a, depth) for a in rv[2]))
+    return ("other", k)
+
+
+def op_expr(fn, op, depth=0):
+    if op[0] == "k":
+        c = op[1]
+        if "uneval" in c and "promoted" not in c:
+            return ("kc", strip_generics(c["uneval"]), _hashable(c.get("v")), c.get("uargs", ""))
+        if "fn" in c:
+            return ("kfn", strip_generics(c["fn"]))
+        if "param" in c:
+            return ("kparam", c["param"])
+        if "promoted" in c:
+            return ("kprom", c["promoted"])
+        return ("k", _hashable(c.get("v")))
+    if op[0] in ("cp", "mv"):
+        e = place_expr(fn, op[1], depth)
+        # `(a op b).0` of a checked arithmetic pair is just the result
+        if e[0] == "proj" and e[2] == (0,) and e[1][0] == "bin":
+            return e[1]
+        return e
+    return ("other", op[0])
+
+
+def strip_casts(e):
+    while isinstance(e, tuple) and e and e[0] == "cast":
+        e = e[1]
+    return e
+
+
+def bool_atom(e, val):
+    """Normalise (expression == val) for boolean-ish switch discriminants: peel `Not` and
+    comparisons with literal 0/false.  Returns (expr, polarity)."""
+    while True:
+        if e[0] == "un" and e[1] == "Not":
+            e = e[2]
+            val = not val
+            continue
+        if e[0] == "bin" and e[1] in ("Eq", "Ne") and e[3][0] == "k" and e[3][1] in (0, False, True, 1) and isinstance(e[3][1], bool):
+            same = (e[1] == "Eq") == bool(e[3][1])
+            e = e[2]
+            val = val if same else not val
+            continue
+        return e, val
+
+
+def edge_atoms(fn, bb):
+    """For a block ending in a switch: {successor: [(expr, value-description)]} where the
+    description is True/False for booleans, ("eq", v) or ("ne", [vs]) otherwise."""
+    t = fn.blocks[bb]["t"]
+    out = {}
+    if t["k"] != "switch":
+        return out
+    e = op_expr(fn, t["d"])
+    isbool = t["dty"] == "bool"
+    vals = t["v"]
+    for v, tgt in vals:
+        if isbool:
+            a = bool_atom(e, bool(v))
+        else:
+            a = (e, ("eq", v))
+        out.setdefault(tgt, []).append(a)
+    other = t["else"]
+    if isbool and len(vals) == 1:
+        a = bool_atom(e, not bool(vals[0][0]))
+    else:
+        a = (e, ("ne", tuple(v for v, _ in vals)))
+    out.setdefault(other, []).append(a)
+    # a successor reached by two different values carries no single fact
+    return {k: v for k, v in out.items() if len(v) == 1}
+
+
+def path_conditions(fn, bb):
+    """Facts that hold on *every* path from entry to `bb`: for each dominator d of bb ending in a
+    switch whose successor s dominates bb and has d as its only predecessor, the edge atom d->s."""
+    idom = fn.dom()
+    conds = []
+    if bb not in idom:
+        return conds
+    chain = [bb]
+    x = bb
+    while idom.get(x) is not None and idom[x] != x:
+        x = idom[x]
+        chain.append(x)
+    chain.reverse()      # entry ... bb
+    pred = fn.pred()
+    for i in range(len(chain) - 1):
+        d, s = chain[i], chain[i + 1]
+        # s must be entered only through d (ignoring back edges from blocks s dominates)
+        ps = [p for p in pred[s] if not fn.dominates(s, p)]
+        if ps != [d] and set(ps) != {d}:
+            continue
+        atoms = edge_atoms(fn, d).get(s)
+        if atoms:
+            conds.append((d, atoms[0][0], atoms[0][1]))
+        elif fn.blocks[d]["t"]["k"] == "assert":
+            t = fn.blocks[d]["t"]
+            e, v = bool_atom(op_expr(fn, t["c"]), bool(t["exp"]))
+            conds.append((d, e, v))
+    return conds
+
+
+def expr_calls(e, out=None):
+    """All ("call", name, args, dest) nodes inside an expression."""
+    if out is None:
+        out = []
+    if isinstance(e, tuple):
+        if e and e[0] == "call":
+            out.append(e)
+        for x in e:
+            if isinstance(x, tuple):
+                expr_calls(x, out)
+    return out
+
+
+def expr_consts(e, out=None):
+    """All named constants ("kc", path, value, args) inside an expression."""
+    if out is None:
+        out = []
+    if isinstance(e, tuple):
+        if e and e[0] == "kc":
+            out.append(e)
+        for x in e:
+            if isinstance(x, tuple):
+                expr_consts(x, out)
+    return out
+
+
+def show(e, depth=0):
+    """Compact rendering of an expression for reports."""
+    if not isinstance(e, tuple) or not e:
+        return str(e)
+    k = e[0]
+    if k == "k":
+        return str(e[1])
+    if k == "kc":
+        return last_seg(e[1])
+    if k == "arg":
+        return e[2]
+    if k == "var":
+        return e[2] if len(e) > 2 else "_%d" % e[1]
+    if depth > 4:
+        return "..."
+    if k == "call":
+        return "%s(%s)" % (last_seg(e[1]), ", ".join(show(a, depth + 1) for a in e[2]))
+    if k == "bin":
+        return "(%s %s %s)" % (show(e[2], depth + 1), e[1], show(e[3], depth + 1))
+    if k == "un":
+        return "%s(%s)" % (e[1], show(e[2], depth + 1))
+    if k in ("cast", "ref", "discr"):
+        return "%s(%s)" % (k, show(e[1], depth + 1))
+    if k == "proj":
+        return "%s.%s" % (show(e[1], depth + 1), ".".join(str(p) for p in e[2]))
+    return k
